@@ -136,6 +136,25 @@ int64_t interp_i64(struct jls_tmap_s * self, int64_t x0, int64_t const * x, int6
         low = self->entries_length - 2;
     }
 
+    // A segment without extent in x (equal times, when converting time to sample id)
+    // has no slope: stay on its nearest end, and beyond it continue with the slope
+    // of the closest segment that has one.
+    if (x[low + 1] == x[low]) {
+        size_t anchor = (x0 > x[low + 1]) ? (low + 1) : low;
+        size_t seg = low;
+        while ((seg > 0) && (x[seg + 1] == x[seg])) {
+            --seg;
+        }
+        while (((seg + 2) < self->entries_length) && (x[seg + 1] == x[seg])) {
+            ++seg;
+        }
+        if ((x0 == x[anchor]) || (x[seg + 1] == x[seg])) {
+            return y[anchor];
+        }
+        double slope_seg = ((double) (y[seg + 1] - y[seg])) / ((double) (x[seg + 1] - x[seg]));
+        return y[anchor] + (int64_t) round(((double) (x0 - x[anchor])) * slope_seg);
+    }
+
     // interpolate
     double dk = (double) (x0 - x[low]);
     double ds = (double) (x[low + 1] - x[low]);
